@@ -13,7 +13,9 @@ CONSTANTS GenDepth,      \* number of calls in a script
           CloseHows,     \* subset of {"commit", "rollback", "exit"}: how a read transaction is ended
           EndHows,       \* subset of {"commit", "exit"} / {"rollback", "raise"} used for write transactions
           IdOffsets,     \* reader(id=newest id + d) for d in IdOffsets (ids near the retained window)
-          Forms          \* subset of {"rdata", "rdataset", "rrset"}: argument form of the writer's calls
+          Styles         \* how the writer's calls are made: set of <<form, spelling>>, form in {"rdata", "rdataset",
+                         \* "rrset"}, spelling of owner names in {"own" (the zone's relativity), "other" (absolute
+                         \* names in a relativized zone and vice versa), "str" (text)}
 
 VARIABLES hist,
           fin            \* the script is complete (simulation mode prints it exactly once)
@@ -33,6 +35,11 @@ GenContentsTiny  == {C(1, {A1}), C(2, {A1})}
 GenContentsSmall == {C(0, {}), C(1, {A1}), C(2, {A1})}
 GenContentsMid   == {C(0, {}), C(1, {A1}), C(2, {A1}), C(2, {A1, A2, B1}), C(3, {B1}), C(3, {A2})}
 GenContents      == GenContentsMid \cup {C(2, {A1, G1}), C(3, {A1, G1, D0})}
+GenStyleOwn == {<<"rdata", "own">>}
+GenStyleE2  == {<<"rdataset", "own">>, <<"rdata", "other">>}
+GenStyleE2T == {<<"rdataset", "own">>, <<"rrset", "other">>, <<"rdata", "str">>}
+GenStyleE3  == {<<"rdata", "own">>, <<"rdataset", "other">>}
+GenStyleAll == {"rdata", "rdataset", "rrset"} \X {"own", "other", "str"}
 GenNoOffsets == {}
 GenIdOffsets == {-2, -1, 0, 1}
 GenInitOne == {C(1, {A1})}
@@ -71,11 +78,17 @@ GStep ==
     \/ /\ "begin" \in Ops
        /\ \E b \in BOOLEAN : BeginWrite(b) /\ H([op |-> "begin", repl |-> b])
     \/ /\ "stage" \in Ops
-       /\ \E c \in Contents, f \in Forms : Stage(c) /\ H([op |-> "stage", content |-> c, form |-> f])
+       /\ \E c \in Contents, st \in Styles : Stage(c) /\ H([op |-> "stage", content |-> c, form |-> st[1], sp |-> st[2]])
     \/ /\ "commit" \in Ops /\ Len(allIds) <= MaxCommits
        /\ \E how \in EndHows \cap {"commit", "exit"} :
             /\ CommitChanged(Last(allIds) + 1) \/ CommitUnchanged
             /\ H([op |-> "end", how |-> how])
+    \* a commit during which the pruning predicate raises (the driver arms a one-shot fault in the
+    \* predicate; if pruning never consults it the commit is an ordinary one).  The generator assumes
+    \* the version gets published and nothing is pruned, and writes no more in this script.
+    \/ /\ "commitfault" \in Ops /\ Len(allIds) <= MaxCommits
+       /\ CommitFaulted(TRUE, Last(allIds) + 1, 1) /\ H([op |-> "end", how |-> "commit_fault"])
+    \/ /\ "reuse" \in Ops /\ ReuseEndedWriter /\ H([op |-> "reuse"])
     \/ /\ "rollback" \in Ops
        /\ \E how \in EndHows \cap {"rollback", "raise"} : Rollback /\ H([op |-> "end", how |-> how])
     \/ /\ "setmax" \in Ops
